@@ -473,7 +473,7 @@ impl Scenario for C16 {
         "Family 'script' (seeded): at each of the three handshake stages the simulated server plays one of {the expected method with drawn values, a leading heartbeat, Secure, Start with other mechanisms/locales, Close(code,text), an out-of-order valid frame, malformed octets, EOF, reset, silence}, against drawn client options (PLAIN/EXTERNAL, credentials, vhost, locale, channel_max, frame_max, heartbeat, information, connection_timeout on/off), with read segmentation and write fragmentation. Family 'cut' (systematic): a cooperative handshake cut by EOF and by reset at every byte offset of the server's handshake stream. Oracle: a reference model written from the property statement gives the expected result per behaviour (error kind with its payload, or a usable connection exposing the server's properties only after OpenOk); the wire oracle checks the header, StartOk/TuneOk/Open strictly in reaction to Start/Tune, their contents, CloseOk before ServerClosedConnection, and that nothing is written without its trigger; no panic; no hang unless the server is silent and no timeout is set; with a timeout the error arrives no earlier than the timeout after the last server byte and within 0.35 s after it. Non-trivial = the server deviated from the plain handshake at some stage or the stream was cut inside a frame; distinct = (stage behaviours, options, offset).".to_string()
     }
     fn plan(&self, thorough: bool, seed: u64) -> Vec<CaseSpec> {
-        let mut v = plan_random("C16", "script", seed, if thorough { 150_000 } else { 8_000 });
+        let mut v = plan_random("C16", "script", seed, if thorough { 400_000 } else { 20_000 });
         // systematic cuts of a cooperative handshake: its server stream is Start(~100) + Tune(20) + OpenOk(13) bytes
         let reps = if thorough { 6 } else { 1 };
         for (r, s) in seeds_for("C16", "cut", seed, reps).into_iter().enumerate() {
